@@ -224,7 +224,16 @@ func checkSpan(c vcase) *vk.Failure {
 		if finiteBounds && !(math.Abs(u-l) <= math.MaxFloat64/2) {
 			vk.Class("floats.NearestIdxForSpan/range-overflow-zone")
 			if g < 0 || g >= n {
+				if isFinite(v) && math.IsInf(u-l, 0) {
+					return vk.Failf(key+"/huge-range-index", "NearestIdxForSpan(%d, %v, %v, %v) = %d out of range (u-l overflows)", n, l, u, v, g)
+				}
 				return vk.Failf(key+"/range", "NearestIdxForSpan(%d, %v, %v, %v) = %d out of range", n, l, u, v, g)
+			}
+			// u-l may overflow in float64; the exact position is still well defined.
+			if isFinite(v) {
+				if tf := spanPosition(n, l, u, v); math.Abs(float64(g)-tf) > 0.5+8*float64(n)*vk.Eps {
+					return vk.Failf(key+"/huge-range-index", "NearestIdxForSpan(%d, %v, %v, %v) = %d but the exact position is %v", n, l, u, v, g, tf)
+				}
 			}
 			return nil
 		}
@@ -280,16 +289,7 @@ func checkSpan(c vcase) *vk.Failure {
 			return nil
 		}
 		// (a) position check in exact arithmetic: t = (v-l)(n-1)/(u-l), |g - clamp(t)| <= 1/2 + 8nu.
-		t := new(big.Float).SetPrec(400).Sub(bigOf(v), bigOf(l))
-		t.Mul(t, bigOf(float64(n-1)))
-		t.Quo(t, new(big.Float).SetPrec(400).Sub(bigOf(u), bigOf(l)))
-		tf := bigF64(t)
-		if tf < 0 {
-			tf = 0
-		}
-		if tf > float64(n-1) {
-			tf = float64(n - 1)
-		}
+		tf := spanPosition(n, l, u, v)
 		if math.Abs(float64(g)-tf) > 0.5+8*float64(n)*vk.Eps {
 			return vk.Failf(key+"/position", "NearestIdxForSpan(%d, %v, %v, %v) = %d but the exact position is %v", n, l, u, v, g, tf)
 		}
@@ -418,6 +418,22 @@ func checkSpan(c vcase) *vk.Failure {
 		return nil
 	}
 	return vk.Failf("bad-case", "unknown function %q", c.Fn)
+}
+
+// spanPosition returns the exact fractional index (v-l)(n-1)/(u-l) of v in
+// the span, clamped to [0, n-1]. l != u, all arguments finite.
+func spanPosition(n int, l, u, v float64) float64 {
+	t := new(big.Float).SetPrec(400).Sub(bigOf(v), bigOf(l))
+	t.Mul(t, bigOf(float64(n-1)))
+	t.Quo(t, new(big.Float).SetPrec(400).Sub(bigOf(u), bigOf(l)))
+	tf := bigF64(t)
+	if tf < 0 {
+		tf = 0
+	}
+	if tf > float64(n-1) {
+		tf = float64(n - 1)
+	}
+	return tf
 }
 
 func clip(s []float64) []float64 {
